@@ -22,7 +22,7 @@ prop("C14",
      technique="Verus deductive proof of trait-level contracts on the real CellType code (all four widths), plus loop-free/width-bounded Kani contract harnesses as counterexample twins",
      design_ref="DESIGN.md section 4-U1, 5-C14",
      text="Unbounded proof: wrapping_div/inv/pow and the conversions are verified against mathematical contracts generic in the width; each of the four impls is verified against the trait contracts. Consumer obligation (unit u10): OptRebuild::analyze_loop, the one place where wrapping_div / wrapping_inv decide a loop's trip count, reports the LEAST k with m + k*inc == 0 (mod 2^bits), reports 'infinite' only when no k exists, and for an unknown initial value a count x with x*(-inc) == [cond]. Also proved (u10): opt::wrapping_geometric_sum(mul, count) == 1 + mul + ... + mul^(count-1) (mod 2^bits), the helper the geometric closed form of loop_motion is built on.",
-     note="Trusted: Verus+Z3, vstd, assume_specification of uN::{checked_shl,checked_shr,wrapping_neg}, the extractor's desugarings D1/D3/D10. In u10 the analysis state is reduced to three fields (D10), its knowledge comes through three uninterpreted boundary functions, Expr is opaque with the u4 contracts, and Expr::mul's contract is ASSUMED. The second consumer (geometric / arithmetic closed forms in loop_motion: HashSet/HashMap parameters, closures) is covered ONLY by a BOUNDED STAND-IN (unit n4_loop_motion: the real function on enumerated loop bodies, u8 exhaustive over multiplier and trip count; counted separately, never as proved). A BOUNDED native twin (unit n6_cell_helpers: the same contracts evaluated exhaustively at u8 and on boundary + pseudo-random operands at 16/32/64 bits) runs next to the proof so that a REWRITTEN helper, for which the shape-anchored proof is only UNDECIDED, still gets a verdict; counted separately, never as proved.")
+     note="Trusted: Verus+Z3, vstd, the extractor's desugarings D1/D3/D10. The assume_specification clauses about uN::{checked_shl,checked_shr,wrapping_neg} are no longer trusted: each is discharged by a generated loop-free Kani harness over the full domain (u1k_stdspec_*, clause text parsed from the Verus unit on every run). In u10 the analysis state is reduced to three fields (D10), its knowledge comes through three uninterpreted boundary functions, Expr is opaque with the u4 contracts, and Expr::mul's contract is ASSUMED. The second consumer (geometric / arithmetic closed forms in loop_motion: HashSet/HashMap parameters, closures) is covered ONLY by a BOUNDED STAND-IN (unit n4_loop_motion: the real function on enumerated loop bodies, u8 exhaustive over multiplier and trip count; counted separately, never as proved). A BOUNDED native twin (unit n6_cell_helpers: the same contracts evaluated exhaustively at u8 and on boundary + pseudo-random operands at 16/32/64 bits) runs next to the proof so that a REWRITTEN helper, for which the shape-anchored proof is only UNDECIDED, still gets a verdict; counted separately, never as proved.")
 
 prop("C18",
      units=[("kani", "u3_smallvec", None)],
